@@ -40,7 +40,9 @@ func (m *cliMon) coqReq(s *val.Syms) string {
 	return "[" + strings.Join(ts, "; ") + "]"
 }
 
-func ctxT() (context.Context, context.CancelFunc) { return context.WithTimeout(context.Background(), 10*time.Second) }
+func ctxT() (context.Context, context.CancelFunc) {
+	return context.WithTimeout(context.Background(), 10*time.Second)
+}
 
 // readCache reads the client's cache for every table.
 func readCache(cl client.Client, db *dyn.DB) map[string]map[string]map[string]val.Val {
@@ -140,7 +142,7 @@ func driveC01(o opts) error {
 			}
 			mons = append(mons, m)
 		}
-		tg := &txnGen{g: g, sc: sc, state: map[string]map[string]map[string]val.Val{}, pool: 6, pSelect: 0.05, pWait: 0.02, pInvalid: 0.08, dangling: 0.03}
+		tg := &txnGen{g: g, sc: sc, state: map[string]map[string]map[string]val.Val{}, pool: 6, pSelect: 0.05, pWait: 0.02, pInvalid: 0.08, dangling: 0.03, pBounded: 0.12}
 		st, _, _ := lab.state()
 		tg.state = st
 		oracle := ""
@@ -250,7 +252,8 @@ func driveC01(o opts) error {
 					ops = append(ops,
 						TOp{Kind: "insert", Table: "Q", UUID: qu, Row: map[string]val.Val{"name": val.VA(gen.AtomN('s', i))}},
 						TOp{Kind: "insert", Table: "C", UUID: cu, Row: map[string]val.Val{"k": val.VA(gen.AtomN('s', i+1)), "friend": val.VSome(val.Uuid(qu))}},
-						TOp{Kind: "insert", Table: "P", UUID: tg.fresh(), Row: map[string]val.Val{"name": val.VA(gen.AtomN('s', i)), "kids": val.VS(val.Uuid(cu)), "w1": val.VS(val.Uuid(qu))}})
+						TOp{Kind: "insert", Table: "P", UUID: tg.fresh(), Row: map[string]val.Val{"name": val.VA(gen.AtomN('s', i)), "kids": val.VS(val.Uuid(cu)), "w1": val.VS(val.Uuid(qu)),
+							"m1": {K: 'm', Map: [][2]val.Atom{{gen.AtomN('s', i), gen.AtomN('s', i+2)}}}}})
 				}
 			}
 			viaClient := g.Chance(0.3) && pendingRelease == nil
